@@ -80,6 +80,11 @@ pub trait Build: Shape {
     fn fits_static(_v: &AnyV, _n: usize) -> bool {
         true
     }
+    /// known finding D17: the replacement is a variant whose field is itself an unsized enum and
+    /// the *inner* initialiser refuses (its own size check) after the outer tag was written
+    fn nested_refusal(_v: &AnyV, _n: usize) -> bool {
+        false
+    }
     /// assign into an existing value (unsized shapes)
     fn assign<'a>(v: &AnyV, t: &'a mut Self::T) -> Result<&'a mut Self::T, Error>;
 }
@@ -948,6 +953,63 @@ impl Build for U_E4 {
         match v.sel {
             0 => t.assign_in_place(UE4InitA),
             _ => with_vec_emplacer!(v, |e| t.assign_in_place(UE4InitS(US1Init { a: v.a, b: v.b, c: e }))),
+        }
+    }
+}
+
+impl Build for U_E6 {
+    const NSEL: u8 = 4;
+    fn canon(v: &AnyV) -> Canon {
+        let mut c = Canon::new();
+        match v.sel {
+            0 => c.put(0),
+            1 => {
+                c.put(1);
+                c.put(0);
+            }
+            2 => {
+                c.put(1);
+                c.put(1);
+                c.put(b8(v.f));
+            }
+            _ => {
+                c.put(1);
+                c.put(2);
+                canon_vec_u8(&mut c, v);
+            }
+        }
+        c
+    }
+    fn need(v: &AnyV) -> usize {
+        match v.sel {
+            0 => 1,
+            1 => 2,
+            2 => 3,
+            _ => 3 + v.m,
+        }
+    }
+    fn fits_static(v: &AnyV, n: usize) -> bool {
+        // the outer variant N needs the inner enum's MIN_SIZE (1 byte) of data
+        v.sel == 0 || n >= 2
+    }
+    fn nested_refusal(v: &AnyV, n: usize) -> bool {
+        // outer N fits (n >= 2) but the inner variant B / C needs one more data byte
+        v.sel >= 2 && n == 2
+    }
+    fn emplace<'a>(v: &AnyV, bytes: &'a mut [u8]) -> Result<&'a mut UE6, Error> {
+        match v.sel {
+            0 => UE6::new_in_place(bytes, UE6InitA),
+            1 => UE6::new_in_place(bytes, UE6InitN(UE2InitA)),
+            2 => UE6::new_in_place(bytes, UE6InitN(UE2InitB(bl(v.f)))),
+            _ => with_vec_emplacer!(v, |e| UE6::new_in_place(bytes, UE6InitN(UE2InitC(e)))),
+        }
+    }
+    fn assign<'a>(v: &AnyV, t: &'a mut UE6) -> Result<&'a mut UE6, Error> {
+        match v.sel {
+            0 => t.assign_in_place(UE6InitA),
+            1 => t.assign_in_place(UE6InitN(UE2InitA)),
+            2 => t.assign_in_place(UE6InitN(UE2InitB(bl(v.f)))),
+            _ => with_vec_emplacer!(v, |e| t.assign_in_place(UE6InitN(UE2InitC(e)))),
         }
     }
 }
